@@ -38,6 +38,37 @@ Proof.
 Qed.
 Print Assumptions C01_to_client_transparent.
 
+(** If both sides keep the connection open the whole stream arrives: when
+    the proxy's copy loop and the final reader keep issuing Reads with
+    non-empty buffers (as many Reads as there are bytes always suffice),
+    nothing stays in flight - whatever the splits and schedules. *)
+Theorem C01_to_app_complete : forall m sc stream,
+  Forall (fun x => 0 < x) (sc_copy sc) -> Forall (fun x => 0 < x) (sc_app sc) ->
+  (List.length stream <= List.length (sc_copy sc))%nat ->
+  (List.length stream <= List.length (sc_app sc))%nat ->
+  exists outs, to_app m gen_hello_buf_size gen_side_chunk sc stream = (outs, []) /\
+               concat outs = stream.
+Proof.
+  exact (fun m sc stream =>
+           to_app_complete m gen_hello_buf_size gen_side_chunk sc stream
+             gen_hello_cap_ge5 gen_side_chunk_pos).
+Qed.
+Print Assumptions C01_to_app_complete.
+
+Theorem C01_to_client_complete : forall m sc ws,
+  Forall (fun x => 0 < x) (sc_copy sc) -> Forall (fun old => old <> []) (sc_bufs sc) ->
+  (List.length (concat ws) <= List.length (sc_copy sc))%nat ->
+  (List.length (concat ws) <= List.length (sc_bufs sc))%nat ->
+  exists outs,
+    to_client m gen_decode_alloc_max gen_max_read_size gen_side_chunk sc ws = (outs, []) /\
+    concat outs = concat ws.
+Proof.
+  exact (fun m sc ws =>
+           to_client_complete m gen_decode_alloc_max gen_max_read_size gen_side_chunk sc ws
+             gen_side_chunk_pos eq_refl).
+Qed.
+Print Assumptions C01_to_client_complete.
+
 (** The stream received does not depend on the tunnel mode. *)
 Theorem C01_mode_independent : forall sc1 sc2 stream o1 o2,
   Forall (fun x => 0 < x) (sc_app sc1) -> Forall (fun x => 0 < x) (sc_app sc2) ->
